@@ -45,6 +45,7 @@ type Options struct {
 	AllocBound  int // largest symbolic make() size explored
 	FloatEnum   int // max distinct float values enumerated by FormatFloat etc.
 	ByteEnum    int // max distinct values when a symbolic byte/int must be concrete
+	MaxQueries  int // solver queries per path before it counts as truncated
 }
 
 // Input is one nondeterministic input of a path.
@@ -71,6 +72,7 @@ type Candidate struct {
 	Known    string // region name if inside a known-finding region
 	Note     map[string]string
 	PanicMsg string
+	Choices  string // the harness's choice vector (shape of the case)
 }
 
 // PathResult summarises a finished path.
@@ -188,6 +190,9 @@ func (p *Path) take(t *Term) {
 }
 
 func (p *Path) feasible(t *Term) Result {
+	if p.sess.nqueries > p.w.ex.opt.MaxQueries {
+		p.abort(abBudget, "solver-query budget of the path exhausted (unbounded symbolic loop?)")
+	}
 	if t.isC {
 		if t.boolVal() {
 			return Sat
@@ -391,6 +396,9 @@ func NewExplorer(opt Options) *Explorer {
 	}
 	if opt.FloatEnum == 0 {
 		opt.FloatEnum = 24
+	}
+	if opt.MaxQueries == 0 {
+		opt.MaxQueries = 6000
 	}
 	if opt.ByteEnum == 0 {
 		opt.ByteEnum = 40
